@@ -62,6 +62,30 @@ def strip_ns(t):
     return t
 
 
+class DidNotReturn(BaseException):
+    """raised by the per-call time limit (a BaseException so that no `except Exception` in the library eats it)"""
+
+
+def limited(fn, seconds=8.0):
+    """run fn() under a per-call time limit; raises DidNotReturn when it is exceeded"""
+    import signal
+
+    def on_alarm(signum, frame):
+        raise DidNotReturn()
+    import time as _time
+    old = signal.signal(signal.SIGALRM, on_alarm)
+    prev = signal.setitimer(signal.ITIMER_REAL, seconds)      # prev = the check's own watchdog, if armed
+    t0 = _time.monotonic()
+    try:
+        return fn()
+    finally:
+        signal.setitimer(signal.ITIMER_REAL, 0)
+        signal.signal(signal.SIGALRM, old)
+        if prev[0]:
+            # re-arm the outer watchdog with what is left of ITS time
+            signal.setitimer(signal.ITIMER_REAL, max(prev[0] - (_time.monotonic() - t0), 0.5), prev[1])
+
+
 def fstr(x):
     """a NEW str object with the same text (no sharing with literals / other nodes)"""
     return "".join(list(x)) if isinstance(x, str) else x
@@ -381,11 +405,18 @@ def observe(root, strict, clear=True):
         # every way the optional parameter can be passed: omitted (lenient), positional, keyword
         form = len(store_before) % 3
         if not strict and form == 0:
-            pruned = validate.prune(root)
+            pruned = limited(lambda: validate.prune(root))
         elif form == 1:
-            pruned = validate.prune(root, strict=strict)
+            pruned = limited(lambda: validate.prune(root, strict=strict))
         else:
-            pruned = validate.prune(root, strict)
+            pruned = limited(lambda: validate.prune(root, strict))
+    except DidNotReturn:
+        out["exc"] = "NON-TERMINATION: prune did not return within 8 s"
+        out["after"] = {"id": root.id, "name": root.name, "content": None, "tail": None, "prefix": None, "attrs": [], "extras": [], "nsmap": [], "kids": []}
+        out["store_after"] = []
+        if clear:
+            Node.store.clear()
+        return out
     except Exception as e:  # noqa
         out["exc"] = type(e).__name__ + ": " + str(e)[:200]
         out["after"] = NL.snapshot(root)
@@ -450,8 +481,10 @@ def observe(root, strict, clear=True):
     pruned.clear()
     pruned.append(("not a node", "not a reason"))
     try:
-        again = validate.prune(root, strict)
+        again = limited(lambda: validate.prune(root, strict))
         out["second"] = [(n.id, reason_kind(m)) for n, m in again]
+    except DidNotReturn:
+        out["second"] = "NON-TERMINATION"
     except Exception as e:  # noqa
         out["second"] = "EXC " + type(e).__name__
     out["after2"] = NL.snapshot(root)
@@ -603,6 +636,8 @@ def statement_violations(tb, t, strict, o):
     """list of (key, what) where the implementation's observed behaviour contradicts the property text"""
     v = []
     if o["exc"] is not None:
+        if o["exc"].startswith("NON-TERMINATION"):
+            return [("non-termination", "prune did not return within the per-call time limit (8 s) on this tree")]
         return [("raises", f"prune raised {o['exc']}")]
     after = o["after"]
     before_ids = ids_of(t)
